@@ -14,6 +14,9 @@ Families (complete enumerations):
   fshape  f-strings: conversion {none,!r,!s,!a} x 7 format-spec shapes x 10 value kinds, nested to
           depth 2 (quick) / 3 (thorough)
   nest    sigma strings of length <= 2 at each level of a 3-deep nest of f-strings in containers
+  fq      literal text (every string of length 1..3 over the quote core) before / after / around a replacement
+          field holding a string constant (every string of length <= 2 over 6 symbols): quote-mark choice
+          constrained by the field, escaping of the literal text at the edges of the f-string
   corpus  every string/bytes/f-string literal of the host's standard library
 Oracle: text has no '\\n'/'\\r'; ast.parse(text) gives identical constant values (repr-compared, so
 NaN and -0.0 are distinguished), conversion codes and format-spec structure.
@@ -272,12 +275,27 @@ def run_shard(shard):
             for t in sigma_strings(1, 1):
                 e = JoinedStr(values=[Constant(value=s), _fv(List(elts=[Constant(value=t), JoinedStr(values=[_fv(Dict(keys=[Constant(value=s)], values=[JoinedStr(values=[Constant(value=t), _fv(Constant(value=s))])]))])], ctx=Load()))])
                 judge(res, "c04:nest:%s:%s" % (ascii(s), ascii(t)), e, sys.version_info >= (3, 12))
+    elif kind == "fq":
+        # literal text next to a replacement field holding a string constant: the constant decides which quote
+        # marks remain for the f-string (both kinds of quote inside force a triple quote), the literal text then has
+        # to be escaped for that mark - at its start, in the middle and, critically, at the very end of the f-string
+        _, t = shard
+        for n in (1, 2, 3):
+            for tt in itertools.product(QSIG, repeat=n):
+                lit = "".join(tt)
+                for shape, e in (
+                    ("field+lit", JoinedStr(values=[_fv(Constant(value=t)), Constant(value=lit)])),
+                    ("lit+field", JoinedStr(values=[Constant(value=lit), _fv(Constant(value=t))])),
+                    ("lit+field+lit", JoinedStr(values=[Constant(value=lit), _fv(Constant(value=t)), Constant(value=lit)])),
+                ):
+                    judge(res, "c04:fq:%s:%s:%s" % (shape, ascii(t), ascii(lit)), e, sys.version_info >= (3, 12))
     elif kind == "corpus":
         corpus_shard(res, shard[1])
     return res
 
 
 QSIG = ["'", '"', "\\", "{", "}", "\n", "a"]
+FQ_T = ["'", '"', "a", "\\", "\n", "{"]
 BSIG = [b"'", b'"', b"\\", b"\n", b"\r", b"\0", b"a", b"\xff", b"{"]
 
 
@@ -299,6 +317,9 @@ def shards(tier):
         out.append(("fshape", depth, r, k))
     for first in SIGMA:
         out.append(("nest", first))
+    for n in (0, 1, 2):
+        for tt in itertools.product(FQ_T, repeat=n):
+            out.append(("fq", "".join(tt)))
     for ch in core.chunked(c03.corpus_files(), 12):
         out.append(("corpus", ch))
     return out
